@@ -1,7 +1,8 @@
 // Command dial runs the library's endpoint discovery and connection establishment -
-// dial.Dialer.Dial / DialServer, dial.Client, dial.Server and websocket.Dialer.Dial -
-// against an in-process fake world and records one trace per scenario for validation
-// against tla/Dial.tla (TrDial.tla):
+// dial.Dialer.Dial / DialServer and websocket.Dialer.Dial - against an in-process fake
+// world and records one trace per scenario for validation against tla/Dial.tla
+// (TrDial.tla).  (dial.Client / dial.Server look SRV records up with a nil *net.Resolver,
+// which cannot be redirected in-process; they are one-line wrappers of Dialer.Dial.)
 //
 //   - DNS: a net.Resolver{PreferGo: true, Dial: ...} whose connections end in a fake server
 //     speaking the DNS wire protocol (dns.go): SRV answers per service (records, ".",
@@ -31,6 +32,7 @@ import (
 	"strconv"
 	"strings"
 	"sync"
+	"sync/atomic"
 	"syscall"
 	"time"
 
@@ -102,7 +104,7 @@ func (sc *Scenario) normalize() {
 var (
 	ownIP   string
 	thePKI  *pki
-	theDNS  = &fakeDNS{}
+	queries int64
 	stuckMu sync.Mutex
 )
 
@@ -234,8 +236,8 @@ func (r *run) onQuery(name string, t dnsmessage.Type) {
 			}
 			dom = r.domClass(parts[2])
 		}
-		if dom == "other" && svc == "other" {
-			return
+		if dom == "other" {
+			return // not a name of this world (eg. a search-list variant the resolver tries after NXDOMAIN)
 		}
 		r.ev(map[string]interface{}{"ev": "lookup", "svc": svc, "role": role, "dom": dom})
 		if sc.Cancel.At == "srv" {
@@ -256,6 +258,14 @@ func (r *run) onQuery(name string, t dnsmessage.Type) {
 			}
 		}
 		if h == -2 {
+			return
+		}
+		// once the context is cancelled the resolver finishes (or starts) address lookups in the
+		// background: their order means nothing any more
+		r.mu.Lock()
+		fired := r.fired
+		r.mu.Unlock()
+		if fired {
 			return
 		}
 		r.ev(map[string]interface{}{"ev": "resolve", "h": h})
@@ -373,11 +383,18 @@ func (r *run) customTLS() *tls.Config {
 	return &tls.Config{ServerName: customName, NextProtos: []string{customALPN}, RootCAs: thePKI.pool, MinVersion: tls.VersionTLS12}
 }
 
+// leakWaits bounds the time the driver spends waiting for asynchronous closes.
+var leakWaits int32
+
 // leaks: candidates whose socket is still open after the call returned, the returned
 // connection's own socket (one of candidate `ret`) excepted. A socket found open is given a
-// moment (asynchronous close) before it counts.
+// moment (asynchronous close) before it counts - the first few times.
 func (r *run) leaks(ret int) []int {
-	deadline := time.Now().Add(3 * time.Second)
+	deadline := time.Now().Add(2 * time.Second)
+	if atomic.LoadInt32(&leakWaits) >= 5 {
+		deadline = time.Now().Add(100 * time.Millisecond)
+	}
+	first := true
 	for {
 		r.mu.Lock()
 		socks := append([]sock(nil), r.socks...)
@@ -397,7 +414,11 @@ func (r *run) leaks(ret int) []int {
 		if len(out) == 0 || time.Now().After(deadline) {
 			return out
 		}
-		time.Sleep(50 * time.Millisecond)
+		if first {
+			atomic.AddInt32(&leakWaits, 1)
+			first = false
+		}
+		time.Sleep(20 * time.Millisecond)
 	}
 }
 
@@ -459,8 +480,10 @@ func runScenario(sc *Scenario) (evs []vt.Ev) {
 	ctx, cancel := context.WithCancel(context.Background())
 	r.cancel = cancel
 	defer cancel()
-	theDNS.set(r.answer, r.onQuery)
-	defer theDNS.set(nil, nil)
+	// a DNS server (and resolver) of its own for every scenario: the Go resolver finishes address
+	// lookups of a cancelled call in the background; they must not reach a later scenario
+	dns := &fakeDNS{answer: r.answer, onQuery: r.onQuery}
+	defer func() { dns.set(nil, nil); atomic.AddInt64(&queries, int64(dns.count())) }()
 	defer w.shutdown()
 
 	fail := func(what string, err error) []vt.Ev {
@@ -516,7 +539,7 @@ func runScenario(sc *Scenario) (evs []vt.Ev) {
 	if err != nil {
 		return fail("jid", err)
 	}
-	nd := net.Dialer{Resolver: theDNS.resolver(), Control: r.control}
+	nd := net.Dialer{Resolver: dns.resolver(), Control: r.control}
 	var conn net.Conn
 	var callErr error
 	var panicked interface{}
@@ -725,7 +748,7 @@ func main() {
 	sum.Traces, sum.Events = tw.Counts()
 	sum.Extra["stuck"] = stuck
 	sum.Extra["harness"] = harness
-	sum.Extra["dns_queries"] = theDNS.queries
+	sum.Extra["dns_queries"] = atomic.LoadInt64(&queries)
 	sum.Print()
 	if harness > 0 {
 		os.Exit(3)
